@@ -806,6 +806,10 @@ class Interp:
                 parts.append(str(v.value))
             else:
                 x = self.eval(v.value, env)
+                if T.is_str_symbol(x):
+                    x = T.str_of(x)
+                if isinstance(x, (int, sp.Integer)) and not isinstance(x, bool) and v.format_spec is None and v.conversion == -1:
+                    x = str(int(x))         # a concrete integer formats to its digits
                 if isinstance(x, str):
                     parts.append(x)
                 else:
@@ -981,12 +985,21 @@ class Interp:
         return a in self.nonnull
 
     def contains(self, container, item, env, node):
+        if is_term(container) and fname(container) == "ite":
+            container = T.strip_never(container)    # the other paths raised
+        if isinstance(container, sp.Tuple):
+            container = list(container.args)        # a literal sequence that travelled through a term
         if isinstance(container, dict):
             key = T.str_of(item) if (isinstance(item, str) or T.is_str_symbol(item)) else item
             if isinstance(key, (str, int, bool)) or key is None:
                 return key in container
             return op("contains", to_term(container), to_term(item))
         if isinstance(container, (tuple, list)):
+            # string symbols and python strings are the same constants
+            if T.is_str_symbol(item):
+                item = T.str_of(item)
+            if any(T.is_str_symbol(x) for x in container if is_term(x)):
+                container = [T.str_of(x) if (is_term(x) and T.is_str_symbol(x)) else x for x in container]
             if isinstance(item, str) or item is None or isinstance(item, bool):
                 if all(isinstance(x, (str, bool)) or x is None or (is_term(x) and x.is_number) for x in container):
                     return item in container
